@@ -7,6 +7,10 @@ PROP = dict(
         "numbers are modelled as integers of magnitude < 1e15 (float64-exact); V/FinSet denotations of sets, tuples, strings, arrays, dicts",
     ],
     assumptions=[
+        "FLOATS are covered by a metamorphic, implementation-only stream only (stratum `float`, harness op `agree`): arithmetic chains "
+        "of 3-4 operands over + - * / % ^ with non-integer and extreme literals, written bare, fully parenthesised as the documented "
+        "precedence/associativity implies, with let-bound literals and with redundant parentheses around literals must print the same "
+        "float text; the Lean model and all theorems are integer-only (|n| < 1e15)",
         "core expression language: numbers, strings, booleans, identifiers, let with identifier/array/tuple/literal patterns, "
         "\\p functions, calls, ->, =>, >>, where, orderby (default binder and explicit), + - * ^, comparisons, prefix - + ! ^ (Negate incl. @neg wrappers), attribute access e.name, cond, &&, ||, "
         "set/array/tuple/dict constructors, relation literals, byte-array literals, parentheses",
